@@ -16,6 +16,7 @@ import LyModel.Sib.Drv
 import LyModel.Diff.Drv
 import LyModel.Diff.Drv13
 import LyModel.Ctx.Drv
+import LyModel.Merge.Drv
 /-! Dispatch table of the line-protocol driver: one handler per component. -/
 namespace LyModel.Drv
 
@@ -39,6 +40,7 @@ def dispatch (comp op : String) (args : List String) : String :=
   | "diff" => Diff.Drv.handle op args
   | "diff13" => Diff.Drv13.handle op args
   | "ctx" => Ctx.Drv.handle op args
+  | "merge" => Merge.Drv.handle op args
   | _ => "err NoSuchComponent"
 
 end LyModel.Drv
